@@ -89,63 +89,67 @@ Lemma src_can_prune_agrees : forall sc ow,
 Proof. intros sc ow. unfold can_prune. destruct ow, (o_policy (sc_opts sc)); reflexivity. Qed.
 
 (* ---- the two filters that consult the policy (pkg/apply/filter) ------------------------------------
-   Their Filter methods are flattened by the translator into guarded items (guards, (is return, text)); an item
-   runs when all its guards hold.  The interpreter below knows exactly the conditions, assignments and return
-   expressions that the pinned source uses and is STUCK (None) on any other text, so a new branch in the source
-   (for instance another error class treated like NotFound) breaks the agreement lemma instead of being ignored.
-   Environment: the policy, what the GET of the live object answers, and the current value of `err`. *)
+   Their Filter methods are emitted by the translator as statement trees (`fstmt`: assignments and returned
+   expressions as rendered text; if / else and tagless switch as SIf).  The interpreter below knows exactly the
+   conditions, assignments and returned expressions it lists and is STUCK on any other text (and on SBad), so a new
+   branch in the source (for instance another error class treated like NotFound) breaks the agreement lemma instead
+   of being ignored.  Environment: the policy, what the GET of the live object answers, the current value of `err`. *)
 Inductive errst := ENil | ENotFound | EOtherErr | EPolicyErr.
-Definition item := (list string * (bool * string))%type.
 Definition eval_cond (pol : policy) (e : errst) (c : string) : option bool :=
-  if c =? "ipaf.InvPolicy == inventory.PolicyAdoptAll" then Some (policy_eqb pol PAdoptAll)
+  if c =? "true" then Some true
+  else if c =? "ipaf.InvPolicy == inventory.PolicyAdoptAll" then Some (policy_eqb pol PAdoptAll)
+  else if c =? "ipaf.InvPolicy != inventory.PolicyAdoptAll" then Some (negb (policy_eqb pol PAdoptAll))
   else if c =? "err != nil" then Some (match e with ENil => false | _ => true end)
+  else if c =? "err == nil" then Some (match e with ENil => true | _ => false end)
   else if c =? "apierrors.IsNotFound(err)" then Some (match e with ENotFound => true | _ => false end)
+  else if c =? "!apierrors.IsNotFound(err)" then Some (match e with ENotFound => false | _ => true end)
   else None.
-Fixpoint eval_guards (pol : policy) (e : errst) (gs : list string) : option bool :=
-  match gs with
-  | [] => Some true
-  | g :: t => match eval_cond pol e g, eval_guards pol e t with
-              | Some a, Some b => Some (a && b)
-              | _, _ => None
-              end
-  end.
-(* a returned error: nil passes; the error of CanApply/CanPrune is a PolicyPreventedActuationError (the object is
-   skipped); NewFatalError(...) ends the run.  Returning any other error value is not something the source does. *)
+(* a returned value: nil passes; the error of CanApply/CanPrune is nil or a PolicyPreventedActuationError (the object
+   is skipped); NewFatalError(...) ends the run.  Returning a read error unwrapped is not something the source does. *)
 Definition eval_ret (e : errst) (t : string) : option fres :=
   if t =? "nil" then Some FPass
   else if t =? "NewFatalError" then Some FFatal
-  else if t =? "err" then match e with EPolicyErr => Some FSkip | _ => None end
+  else if t =? "err" then match e with ENil => Some FPass | EPolicyErr => Some FSkip | _ => None end
   else None.
-(* g = the answer of the GET (None: the caller has not said; the interpreter then reports that it needs it) *)
+(* g = the answer of the GET (None: the caller has not said; the interpreter then reports that it needs it).
+   Small-step over the list of statements still to run; `fuel` bounds the steps (every step consumes a statement
+   or opens one SIf, so the size of the tree suffices; running out of fuel is Stuck, excluded by the lemmas). *)
 Inductive fout := FDone (r : fres) | FNeedGet | FStuck.
-Fixpoint exec_filter (pol : policy) (g : option getres) (ow : option owner) (e : errst) (l : list item) : fout :=
-  match l with
-  | [] => FStuck                                     (* a Go function with a result cannot fall off its end *)
-  | (gs, (isret, t)) :: rest =>
-      match eval_guards pol e gs with
-      | None => FStuck
-      | Some false => exec_filter pol g ow e rest
-      | Some true =>
-          if isret then match eval_ret e t with Some r => FDone r | None => FStuck end
-          else if t =? "clusterObj, err := ipaf.getObject(object.UnstructuredToObjMetadata(obj))" then
+Fixpoint exec_filter_fuel (fuel : nat) (pol : policy) (g : option getres) (ow : option owner) (e : errst)
+         (l : list fstmt) : fout :=
+  match fuel with
+  | 0 => FStuck
+  | S fuel' =>
+      match l with
+      | [] => FStuck                                  (* a Go function with a result cannot fall off its end *)
+      | SBad _ :: _ => FStuck
+      | SRet t :: _ => match eval_ret e t with Some r => FDone r | None => FStuck end
+      | SIf c th el :: rest =>
+          match eval_cond pol e c with
+          | Some true => exec_filter_fuel fuel' pol g ow e (th ++ rest)
+          | Some false => exec_filter_fuel fuel' pol g ow e (el ++ rest)
+          | None => FStuck
+          end
+      | SAssign t :: rest =>
+          if t =? "clusterObj, err := ipaf.getObject(object.UnstructuredToObjMetadata(obj))" then
             match g with
             | None => FNeedGet
-            | Some GFault => exec_filter pol g None EOtherErr rest
-            | Some GNotFound => exec_filter pol g None ENotFound rest
-            | Some (GFound c) => exec_filter pol g (Some (c_owner c)) ENil rest
+            | Some GFault => exec_filter_fuel fuel' pol g None EOtherErr rest
+            | Some GNotFound => exec_filter_fuel fuel' pol g None ENotFound rest
+            | Some (GFound c) => exec_filter_fuel fuel' pol g (Some (c_owner c)) ENil rest
             end
           else if t =? "_, err = inventory.CanApply(ipaf.Inv, clusterObj, ipaf.InvPolicy)" then
             match ow with
             | Some o => match eval_fn src_can_apply (status_name o) pol with
-                        | Some (_, errnil) => exec_filter pol g ow (if errnil then ENil else EPolicyErr) rest
+                        | Some (_, errnil) => exec_filter_fuel fuel' pol g ow (if errnil : bool then ENil else EPolicyErr) rest
                         | None => FStuck
                         end
-            | None => FStuck
+            | None => FStuck                          (* CanApply on an object that was not read *)
             end
           else if t =? "_, err := inventory.CanPrune(ipf.Inv, obj, ipf.InvPolicy)" then
             match ow with
             | Some o => match eval_fn src_can_prune (status_name o) pol with
-                        | Some (_, errnil) => exec_filter pol g ow (if errnil then ENil else EPolicyErr) rest
+                        | Some (_, errnil) => exec_filter_fuel fuel' pol g ow (if errnil : bool then ENil else EPolicyErr) rest
                         | None => FStuck
                         end
             | None => FStuck
@@ -153,6 +157,7 @@ Fixpoint exec_filter (pol : policy) (g : option getres) (ow : option owner) (e :
           else FStuck
       end
   end.
+Definition exec_filter := exec_filter_fuel 64.
 
 (* InventoryPolicyApplyFilter.Filter = policy_apply_filter of the model: no GET under AdoptAll; otherwise one GET
    whose answer decides: a failed read is fatal WHATEVER the error, NotFound passes, a found object is judged by
@@ -173,7 +178,7 @@ Proof.
     destruct (get_obj sc s i) as [s1 g]; destruct g as [| |c]; cbn; try reflexivity;
     unfold can_apply; rewrite P; destruct (c_owner c); reflexivity.
 Qed.
-(* and the interpreter is never stuck on the pinned source: every branch ends in a decision *)
+(* and the interpreter is never stuck on the current source: every branch ends in a decision *)
 Lemma src_policy_apply_filter_total : forall pol g,
   exists r, exec_filter pol (Some g) None ENil src_policy_apply_filter = FDone r.
 Proof.
